@@ -280,7 +280,108 @@ func (p *DispatchPlan) predict(secondAvailable bool) (log []string, ok bool, ter
 	return log, true, "default"
 }
 
+// AnyLike is a named empty interface: a function declared for it applies to
+// every value, exactly like one declared for any.
+type AnyLike interface{}
+
+// runNamedEmptyInterface: functions for a named empty interface must be
+// consulted wherever functions for `any` would be, in particular for the
+// bool/string/float64/map/slice values reached through an any-typed position
+// (where the library otherwise takes a specialised untyped route).
+func (sc *Dispatch) runNamedEmptyInterface(t *core.Tape, env *Env) (any, []core.Violation) {
+	s := t.S("plan-nei")
+	var viols []core.Violation
+	leafs := []any{true, "s", 1.5, map[string]any{}, []any{}}
+	li := s.Draw(len(leafs))
+	leaf := leafs[li]
+	pos := s.Draw(3)
+	if li == 1 && pos == 1 {
+		pos = 0 // a function of interface type also applies to map keys, which are strings
+	}
+	if li == 3 && pos == 1 {
+		pos = 0 // the enclosing map would have the leaf's own type
+	}
+	if li == 4 && pos == 0 {
+		pos = 1 // likewise for the enclosing slice
+	}
+	side := s.Draw(2)
+	plan := map[string]any{"mode": "named-empty-interface", "leaf": fmt.Sprintf("%T", leaf), "position": pos, "side": []string{"marshal", "unmarshal"}[side]}
+	calls := 0
+	isLeaf := func(v any) bool {
+		rv := reflect.ValueOf(v)
+		for rv.Kind() == reflect.Pointer || rv.Kind() == reflect.Interface {
+			if rv.IsNil() {
+				return false
+			}
+			rv = rv.Elem()
+		}
+		return rv.Type() == reflect.TypeOf(leaf)
+	}
+	if side == 0 {
+		fn := json.MarshalToFunc(func(enc *jsontext.Encoder, v AnyLike) error {
+			if !isLeaf(v) {
+				return errors.ErrUnsupported
+			}
+			calls++
+			return enc.WriteToken(jsontext.String("via-fn"))
+		})
+		var in any
+		var want string
+		switch pos {
+		case 0:
+			in, want = []any{leaf}, `["via-fn"]`
+		case 1:
+			in, want = map[string]any{"k": leaf}, `{"k":"via-fn"}`
+		default:
+			in, want = struct{ F any }{leaf}, `{"F":"via-fn"}`
+		}
+		out, err := json.Marshal(in, json.WithMarshalers(fn))
+		env.Stats.Steps++
+		if err != nil || string(out) != want || calls != 1 {
+			viols = append(viols, core.Violationf("C17", "C17/dispatch-order", "marshal/named-empty-interface-func", "a MarshalToFunc for a named empty interface was called %d times for a %T inside %T: output %s err=%v, expected %s", calls, leaf, in, clip(out, 80), classify(err), want))
+		}
+	} else {
+		texts := []string{`true`, `"s"`, `1.5`, `{}`, `[]`}
+		fn := json.UnmarshalFromFunc(func(dec *jsontext.Decoder, v AnyLike) error {
+			if dec.PeekKind() != jsontext.Value(texts[li]).Kind() || dec.StackDepth() == 0 {
+				return errors.ErrUnsupported
+			}
+			calls++
+			if err := dec.SkipValue(); err != nil {
+				return err
+			}
+			if p, ok := v.(*any); ok {
+				*p = "via-fn"
+			}
+			return nil
+		})
+		var target any
+		var text, want string
+		switch pos {
+		case 0:
+			target, text, want = new([]any), `[`+texts[li]+`]`, `&["via-fn"]`
+		case 1:
+			target, text, want = new(map[string]any), `{"k":`+texts[li]+`}`, `&{"k":"via-fn"}`
+		default:
+			target, text, want = new(struct{ F any }), `{"F":`+texts[li]+`}`, `&{F:"via-fn"}`
+		}
+		err := json.Unmarshal([]byte(text), target, json.WithUnmarshalers(fn))
+		env.Stats.Steps++
+		got := strings.ReplaceAll(strings.ReplaceAll(renderAny(target), "(string)", ""), ` `, ``)
+		if err != nil || got != strings.ReplaceAll(want, ` `, ``) || calls != 1 {
+			viols = append(viols, core.Violationf("C17", "C17/dispatch-order", "unmarshal/named-empty-interface-func", "an UnmarshalFromFunc for a named empty interface was called %d times for %s into %T: result %s err=%v, expected %s", calls, text, target, got, classify(err), want))
+		}
+	}
+	env.Stats.Nontrivial = true
+	env.Stats.SigAdd(0x171, uint64(li), uint64(pos), uint64(side))
+	env.Stats.Probe("c17/named-empty-interface-func")
+	return plan, viols
+}
+
 func (sc *Dispatch) Run(t *core.Tape, env *Env) (any, []core.Violation) {
+	if t.S("mode").Chance(1, 12) {
+		return sc.runNamedEmptyInterface(t, env)
+	}
 	p := sc.plan(t)
 	st := env.Stats
 	var viols []core.Violation
